@@ -94,6 +94,8 @@ PROPS["C07"] = {
         Leg("sweep", "c07", "^TestSweep$", engine="enumerate", rapid=False, shards=(8, 16), tests=["sweep"]),
         Leg("frame", "c07", "^TestFrame$", checks=(20000, 200000), shards=(2, 16), tests=["frame"]),
         Leg("stream", "c07", "^TestStream$", checks=(3000, 60000), shards=(2, 16), tests=["stream"]),
+        Leg("long-run-386", "c07", "^TestLongRun$", goarch="386", checks=(1, 2), shards=(5, 5), tests=["long-run"]),
+        Leg("long-run", "c07", "^TestLongRun$", checks=(1, 1), shards=(5, 10), tests=["long-run"]),
         Leg("history", "c07", "^TestHistory$", checks=(1500, 40000), shards=(2, 16), tests=["history"]),
         Leg("quiet-line", "c07", "^TestQuietLine$", engine="sched", checks=(1, 3), shards=(3, 6), tests=["quiet-line"]),
         Leg("parallel", "c07", "^TestParallel$", engine="sched", checks=(800, 15000), shards=(2, 16), tests=["parallel"], replay_attempts=5),
